@@ -112,7 +112,14 @@ func HarnessC08Chunks(kind, auto, size int) {
 		psize = 0
 	}
 	got, err := drainReader(r, psize)
-	f11 := auto == 1 && kind != 2 // auto-detection through a single Read on non-bufio readers
+	// F11: auto-detection through a single Read on non-bufio readers fails when that Read returns too few bytes to
+	// contain the second sync byte (fewer than size+1); with size+1 bytes or more the detection must work
+	f11 := auto == 1 && kind != 2 && chunks[0] <= size
+	if auto == 1 && kind == 1 && (chunks[0] < 193 || chunks[1] < size-(193-size)) {
+		// same defect on the plain-reader path: the resynchronisation assumes that the peek consumed all 193 bytes
+		// and skips to the next packet boundary with one Read
+		f11 = true
+	}
 	vassertK("C08.chunks.err", "F11", f11, err == nil)
 	if err == nil {
 		if kind == 1 && auto == 1 {
